@@ -68,6 +68,7 @@ type LemmaRun struct {
 	MaxWallS       float64
 	NondetMapOrder bool
 	YieldAtGo      bool
+	SolverKind     string // primary solver of this lemma ("z3" default; opts.solver = "z3-new" selects the newer z3)
 	Known          map[string]string // finding id -> status
 	pkg            *ssa.Package
 
@@ -182,6 +183,10 @@ func newLemmaRun(spec *LemmaSpec, tier string, known map[string]string) *LemmaRu
 	if b, _ := spec.Opts["yieldAtGo"].(bool); b {
 		l.YieldAtGo = true
 	}
+	l.SolverKind = "z3"
+	if k, _ := spec.Opts["solver"].(string); k == "z3-new" {
+		l.SolverKind = k
+	}
 	l.cond = sync.NewCond(&l.mu)
 	return l
 }
@@ -195,6 +200,17 @@ func newWorker(prog *ssa.Program) *worker {
 	in := &Interp{prog: prog, globals: map[*ssa.Global]*Agg{}, inited: map[*ssa.Package]bool{}, fninfo: map[*ssa.Function]*fnInfo{}}
 	in.sol = NewSolver("z3", 20000)
 	return &worker{in: in}
+}
+
+// useSolver replaces the worker's solver process when the lemma asks for another primary solver.
+func (w *worker) useSolver(kind string) {
+	if w.in.sol.kind == kind {
+		return
+	}
+	rec := w.in.sol.record
+	w.in.sol.Close()
+	w.in.sol = NewSolver(kind, 20000)
+	w.in.sol.record = rec
 }
 
 func (w *worker) runPath(l *LemmaRun, entry *ssa.Function, prefix []Decision) {
@@ -242,8 +258,9 @@ func (w *worker) runPath(l *LemmaRun, entry *ssa.Function, prefix []Decision) {
 	if solverLost {
 		// restart the solver; the path is inconclusive
 		rec := in.sol.record
+		kind := in.sol.kind
 		in.sol.Close()
-		in.sol = NewSolver("z3", 20000)
+		in.sol = NewSolver(kind, 20000)
 		in.sol.record = rec
 		in.rollback()
 		l.mu.Lock()
